@@ -48,6 +48,7 @@ package inmem
 //@   requires[wf] wfStorage(ts)
 //@   requires[kind] kindOK(subPath, msg)
 //@   nopanic[C19]
+//@   ensures[C19,* nodup] !isDuplicate(err)
 //@   ensures[C19,* nocancel] neverCancelled(ctx) ==> !isCtxErr(err)
 //@   ensures[C19,* stored] err == nil ==> id != "" && subPath != "" && rtHas(t, p) && encodes(rtBytes(t, p), msg)
 //@   ensures[C19,* others] sameViewBut(t, p)
@@ -113,6 +114,7 @@ package inmem
 //@   let t = ts.root
 //@   requires[wf] wfStorage(ts)
 //@   nopanic[C19]
+//@   ensures[C19,* nodup] !isDuplicate(err)
 //@   ensures[C19,* nocancel] neverCancelled(ctx) ==> !isCtxErr(err)
 //@   ensures[C19 refused] IsNil(msg) || !known(msg) ==> err != nil
 //@   ensures[C19 stored] err == nil ==> rtHas(t, pathFor(msg)) && encodes(rtBytes(t, pathFor(msg)), msg) && idFor(msg) != ""
@@ -127,7 +129,8 @@ package inmem
 //@   nopanic[C19]
 //@   ensures[C19,* nocancel] neverCancelled(ctx) ==> !isCtxErr(err)
 //@   ensures[C19 refused] IsNil(msg) || !known(msg) ==> err != nil
-//@   ensures[C19 found] err == nil ==> rtHas(t, pathFor(msg)) && decodedFrom(msg, rtBytes(t, pathFor(msg)))
+// (the entry is the one named by the id the message carried when Load was called)
+//@   ensures[C19 found] err == nil ==> rtHas(t, old(pathFor(msg))) && decodedFrom(msg, rtBytes(t, old(pathFor(msg))))
 //@   ensures[C19 present] neverCancelled(ctx) && !IsNil(msg) && known(msg) && old(idFor(msg)) != "" && rtHas(t, old(pathFor(msg))) ==> err == nil
 //@   ensures[C19 absent] !IsNil(msg) && known(msg) && old(idFor(msg)) != "" && !rtHas(t, old(pathFor(msg))) ==> err != nil && (isNotFound(err) || isCtxErr(err))
 //@   ensures[C19 readonly] sameView(t) && wfStorage(ts)
